@@ -194,7 +194,8 @@ RespSpace == UNION {RespRaw(k, 0) : k \in {"pong", "nodes", "content", "accept"}
 
 \* ---- channel: uTP stream bodies ------------------------------------------------------------------------
 \* offer: LEB128-prefixed items for the accepted keys; find-content: the raw bytes (v0) or one prefixed item (v1)
-Framings == {"empty", "exact", "fewer", "more", "vtrunc", "vbeyond", "voverflow", "vnonmin", "zerolen", "trailing", "big"}
+\* vwrap: a five-byte prefix within a few units of 2^32, so that prefix + bytes read wraps in 32-bit arithmetic (seed C01-1)
+Framings == {"empty", "exact", "fewer", "more", "vtrunc", "vbeyond", "vwrap", "voverflow", "vnonmin", "zerolen", "trailing", "big"}
 StreamSpace ==
   LET B == [Z EXCEPT !.ch = "stream"] IN
   {[B EXCEPT !.kind = "offer", !.net = net, !.cnt = c, !.pl = f, !.cc = x] :
